@@ -292,3 +292,262 @@ Proof.
   { destruct (u_entries _); cbn; split; congruence. }
   rewrite !orb_true_iff, Htv, Hms2, Hne. tauto.
 Qed.
+
+(* ------------------------------------------------------------------ *)
+(* slice over ALL log states: a non-empty range yields a non-empty result no
+   longer than the range (or an error / a panic) *)
+
+Lemma limit_size_nonempty l max : l <> [] -> limit_size l max <> [].
+Proof. intros H. apply (limit_size_spec entry_size l max). exact H. Qed.
+
+Lemma limit_size_prefix l max : exists k, (k <= length l)%nat /\ limit_size l max = firstn k l.
+Proof. apply (limit_size_spec entry_size l max). Qed.
+
+Lemma limit_size_length l max : (length (limit_size l max) <= length l)%nat.
+Proof.
+  destruct (limit_size_prefix l max) as (k & Hk & E). rewrite E, firstn_length. lia.
+Qed.
+
+Lemma firstn_skipn_nonempty {A} (l : list A) a b :
+  (a < b)%nat -> (b <= length l)%nat -> firstn (b - a) (skipn a l) <> [].
+Proof.
+  intros H1 H2 C. apply (f_equal (@length A)) in C.
+  rewrite firstn_length, skipn_length in C. cbn in C. lia.
+Qed.
+
+Lemma storage_entries_shape m lo hi max ctx m' r :
+  storage_entries m lo hi max ctx = Ok (m', SOk r) ->
+  lo < hi ->
+  r <> [] /\ N.of_nat (length r) <= hi - lo
+  /\ exists e0 t, entries m = e0 :: t /\ e_index e0 <= lo /\
+       hi <= e_index e0 + N.of_nat (length (entries m)) /\
+       r = limit_size (firstn (N.to_nat (hi - lo)) (skipn (N.to_nat (lo - e_index e0)) (entries m))) max.
+Proof.
+  unfold storage_entries. intros H Hlt. inv_bind H. rename x into f.
+  destruct (lo <? f) eqn:E1; [inversion H|].
+  destruct (MemStorage.last_index m =? u64_max); [discriminate|].
+  destruct (MemStorage.last_index m + 1 <? hi); [discriminate|].
+  destruct (trig_log m && can_async ctx); [inversion H|].
+  destruct (entries m) as [|e0 t] eqn:El; [discriminate|].
+  unfold MemStorage.first_index in Hx. rewrite El in Hx. inversion Hx; subst f. clear Hx.
+  destruct (hi <? e_index e0) eqn:E2; [discriminate|].
+  destruct (N.to_nat (hi - e_index e0) <? N.to_nat (lo - e_index e0))%nat eqn:E3; [discriminate|].
+  destruct (length (e0 :: t) <? N.to_nat (hi - e_index e0))%nat eqn:E4; [discriminate|].
+  inversion H; subst; clear H.
+  replace (N.to_nat (hi - e_index e0) - N.to_nat (lo - e_index e0))%nat
+    with (N.to_nat (hi - lo)) by lia.
+  split; [|split].
+  - apply limit_size_nonempty.
+    replace (N.to_nat (hi - lo)) with (N.to_nat (hi - e_index e0) - N.to_nat (lo - e_index e0))%nat by lia.
+    apply firstn_skipn_nonempty; lia.
+  - pose proof (limit_size_length
+        (firstn (N.to_nat (hi - lo)) (skipn (N.to_nat (lo - e_index e0)) (e0 :: t))) max) as L.
+    rewrite firstn_length in L. lia.
+  - exists e0, t. repeat split; try reflexivity; lia.
+Qed.
+
+Lemma u_slice_shape u lo hi r :
+  u_slice u lo hi = Ok r -> lo < hi ->
+  r <> [] /\ N.of_nat (length r) = hi - lo
+  /\ u_offset u <= lo /\ hi <= u_offset u + N.of_nat (length (u_entries u))
+  /\ r = firstn (N.to_nat (hi - lo)) (skipn (N.to_nat (lo - u_offset u)) (u_entries u)).
+Proof.
+  unfold u_slice, u_must_check_outofbounds. intros H Hlt.
+  destruct (hi <? lo) eqn:E1; [discriminate|].
+  destruct ((lo <? u_offset u) || (u_offset u + N.of_nat (length (u_entries u)) <? hi)) eqn:E2;
+    [discriminate|].
+  cbn in H. inversion H; subst; clear H. apply orb_false_elim in E2. destruct E2 as [E2 E3].
+  replace (N.to_nat (hi - u_offset u) - N.to_nat (lo - u_offset u))%nat
+    with (N.to_nat (hi - lo)) by lia.
+  split; [|split; [|repeat split; lia]].
+  - replace (N.to_nat (hi - lo)) with (N.to_nat (hi - u_offset u) - N.to_nat (lo - u_offset u))%nat by lia.
+    apply firstn_skipn_nonempty; lia.
+  - rewrite firstn_length, skipn_length. lia.
+Qed.
+
+Lemma slice_shape l lo hi max v :
+  slice l lo hi max = Ok (SOk v) -> lo < hi ->
+  v <> [] /\ N.of_nat (length v) <= hi - lo.
+Proof.
+  unfold slice. intros H Hlt. inv_bind H. destruct x as [e|]; [discriminate|].
+  destruct (lo =? hi) eqn:E0; [lia|].
+  inv_bind H. destruct x as [early|ents].
+  - inversion H; subst; clear H.
+    destruct (lo <? u_offset (unst l)) eqn:E1; [|discriminate].
+    inv_bind Hx0. destruct x as [ents|e].
+    + unfold store_entries in Hx1. inv_bind Hx1. destruct x as [m' r]. cbn in Hx1.
+      inversion Hx1; subst r; clear Hx1.
+      apply storage_entries_shape in Hx2; [|lia]. destruct Hx2 as (A & B & _).
+      destruct (N.of_nat (length ents) <? N.min hi (u_offset (unst l)) - lo); [|discriminate].
+      inversion Hx0; subst. split; [exact A|lia].
+    + destruct e; discriminate.
+  - destruct (lo <? u_offset (unst l)) eqn:E1.
+    + inv_bind Hx0. destruct x as [ents0|e]; [|destruct e; discriminate].
+      unfold store_entries in Hx1. inv_bind Hx1. destruct x as [m' r]. cbn in Hx1.
+      inversion Hx1; subst r; clear Hx1.
+      apply storage_entries_shape in Hx2; [|lia]. destruct Hx2 as (A & B & _).
+      destruct (N.of_nat (length ents0) <? N.min hi (u_offset (unst l)) - lo) eqn:E2; [discriminate|].
+      inversion Hx0; subst ents0; clear Hx0.
+      inv_bind H. inversion H; subst; clear H.
+      destruct (u_offset (unst l) <? hi) eqn:E3.
+      * inv_bind Hx0. inversion Hx0; subst; clear Hx0.
+        apply u_slice_shape in Hx1; [|lia]. destruct Hx1 as (A' & B' & _).
+        split.
+        { apply limit_size_nonempty. destruct ents; [congruence|discriminate]. }
+        pose proof (limit_size_length (ents ++ x0) max) as L. rewrite app_length in L. lia.
+      * inversion Hx0; subst; clear Hx0. split; [apply limit_size_nonempty; exact A|].
+        pose proof (limit_size_length x max) as L. lia.
+    + inversion Hx0; subst ents; clear Hx0.
+      inv_bind H. inversion H; subst; clear H.
+      destruct (u_offset (unst l) <? hi) eqn:E3.
+      * inv_bind Hx0. inversion Hx0; subst; clear Hx0.
+        apply u_slice_shape in Hx1; [|lia]. destruct Hx1 as (A' & B' & _).
+        cbn [app]. split; [apply limit_size_nonempty; exact A'|].
+        pose proof (limit_size_length x max) as L. lia.
+      * lia.
+Qed.
+
+(* next_entries_since / has_next_entries_since agree, over all states *)
+Lemma next_entries_since_has l since max oe :
+  next_entries_since l since max = Ok oe ->
+  exists f ub,
+    first_index l = Ok f /\ applied_index_upper_bound l = Ok ub
+    /\ has_next_entries_since l since = Ok (N.max (since + 1) f <? ub + 1)
+    /\ (N.max (since + 1) f < ub + 1 ->
+          exists v, oe = Some v /\ v <> [] /\ N.of_nat (length v) <= ub + 1 - N.max (since + 1) f
+                    /\ slice l (N.max (since + 1) f) (ub + 1) max = Ok (SOk v))
+    /\ (ub + 1 <= N.max (since + 1) f -> oe = None).
+Proof.
+  unfold next_entries_since, has_next_entries_since. intros H.
+  inv_bind H. rename x into f. inv_bind H. rename x into ub.
+  exists f, ub. rewrite Hx, Hx0. cbn [bind]. repeat split; try reflexivity.
+  - intros Hlt. destruct (N.max (since + 1) f <? ub + 1) eqn:E; [|lia].
+    inv_bind H. destruct x as [v|e]; [|discriminate]. inversion H; subst.
+    destruct (slice_shape _ _ _ _ _ Hx1 Hlt) as [A B]. exists v. repeat split; auto.
+  - intros Hge. destruct (N.max (since + 1) f <? ub + 1) eqn:E; [lia|].
+    inversion H; reflexivity.
+Qed.
+
+Lemma applied_index_upper_bound_spec l ub :
+  applied_index_upper_bound l = Ok ub <->
+  persisted l + max_apply_unpersisted_log_limit l <= u64_max
+  /\ ub = N.min (committed l) (persisted l + max_apply_unpersisted_log_limit l).
+Proof.
+  unfold applied_index_upper_bound.
+  destruct (u64_max <? persisted l + max_apply_unpersisted_log_limit l) eqn:E; split.
+  - discriminate.
+  - intros [A _]. lia.
+  - intros H. inversion H. split; [lia|reflexivity].
+  - intros [_ ->]. reflexivity.
+Qed.
+
+(* F8: the u64 addition overflows: has_ready / ready / advance* panic *)
+Lemma applied_index_upper_bound_overflow l :
+  u64_max < persisted l + max_apply_unpersisted_log_limit l ->
+  applied_index_upper_bound l = Panic site_l_overflow.
+Proof.
+  intros H. unfold applied_index_upper_bound.
+  destruct (u64_max <? persisted l + max_apply_unpersisted_log_limit l) eqn:E; [reflexivity|lia].
+Qed.
+
+(* ------------------------------------------------------------------ *)
+(* 1. has_ready() is true exactly when ready() returns something *)
+
+Definition ready_nonempty (rd : ready) : Prop :=
+  rd_ss rd <> None \/ rd_hs rd <> None \/ rd_read_states rd <> [] \/ rd_entries rd <> []
+  \/ s_index (rd_snapshot rd) <> 0
+  \/ lr_committed_entries (rd_light rd) <> [] \/ lr_messages (rd_light rd) <> [].
+
+Lemma nonempty_true {A} (l : list A) : nonempty l = true <-> l <> [].
+Proof. destruct l; cbn; split; congruence. Qed.
+
+Lemma rn_has_ready_spec n b :
+  rn_has_ready n = Ok b ->
+  (b = true <->
+     r_msgs (rn_raft n) <> []
+     \/ soft_state_of (rn_raft n) <> rn_prev_ss n
+     \/ Raft.hard_state_of (rn_raft n) <> rn_prev_hs n
+     \/ r_read_states (rn_raft n) <> []
+     \/ u_entries (unst (r_log (rn_raft n))) <> []
+     \/ (exists s, u_snapshot (unst (r_log (rn_raft n))) = Some s /\ s_index s <> 0)
+     \/ has_next_entries_since (r_log (rn_raft n)) (rn_commit_since_index n) = Ok true).
+Proof.
+  unfold rn_has_ready. intros H.
+  fold (nonempty (r_msgs (rn_raft n))) in H.
+  fold (nonempty (r_read_states (rn_raft n))) in H.
+  fold (nonempty (u_entries (unst (r_log (rn_raft n))))) in H.
+  destruct (nonempty (r_msgs (rn_raft n))) eqn:E1.
+  { inversion H. apply nonempty_true in E1. tauto. }
+  destruct (ss_eqb (soft_state_of (rn_raft n)) (rn_prev_ss n)) eqn:E2; cbn [negb] in H.
+  2:{ inversion H. assert (soft_state_of (rn_raft n) <> rn_prev_ss n)
+        by (intros C; apply ss_eqb_eq in C; congruence). tauto. }
+  destruct (hs_eqb (Raft.hard_state_of (rn_raft n)) (rn_prev_hs n)) eqn:E3; cbn [negb] in H.
+  2:{ inversion H. assert (Raft.hard_state_of (rn_raft n) <> rn_prev_hs n)
+        by (intros C; apply hs_eqb_eq in C; congruence). tauto. }
+  destruct (nonempty (r_read_states (rn_raft n))) eqn:E4.
+  { inversion H. apply nonempty_true in E4. tauto. }
+  destruct (nonempty (u_entries (unst (r_log (rn_raft n))))) eqn:E5.
+  { inversion H. apply nonempty_true in E5. tauto. }
+  apply ss_eqb_eq in E2. apply hs_eqb_eq in E3.
+  assert (N1 : r_msgs (rn_raft n) = []) by (destruct (r_msgs (rn_raft n)); [reflexivity|discriminate]).
+  assert (N4 : r_read_states (rn_raft n) = [])
+    by (destruct (r_read_states (rn_raft n)); [reflexivity|discriminate]).
+  assert (N5 : u_entries (unst (r_log (rn_raft n))) = [])
+    by (destruct (u_entries (unst (r_log (rn_raft n)))); [reflexivity|discriminate]).
+  destruct (u_snapshot (unst (r_log (rn_raft n)))) as [s|] eqn:E6.
+  - destruct (s_index s =? 0) eqn:E7; cbn [negb] in H.
+    + rewrite H. split.
+      * intros ->. repeat right. reflexivity.
+      * intros [C|[C|[C|[C|[C|[(s' & C & D)|C]]]]]]; try congruence.
+        inversion C; subst. lia.
+    + inversion H. split; [|reflexivity]. intros _.
+      right; right; right; right; right; left. exists s. split; [reflexivity|lia].
+  - rewrite H. split.
+    + intros ->. repeat right. reflexivity.
+    + intros [C|[C|[C|[C|[C|[(s' & C & D)|C]]]]]]; congruence.
+Qed.
+
+Theorem has_ready_iff n b n' rd :
+  rn_has_ready n = Ok b -> rn_ready n = Ok (n', rd) ->
+  (b = true <-> ready_nonempty rd).
+Proof.
+  intros Hh H. rewrite (rn_has_ready_spec _ _ Hh).
+  destruct (rn_ready_inv _ _ _ H) as (recs & snap & csi & rec_snap & ms2 & n2 & light
+    & Hrec & Hsnap & Hgl & Hn' & Hrd).
+  destruct (gen_light_ready_spec _ _ _ Hgl) as (oe & k & Hoe & Hlr & Hn2 & Hlt).
+  cbn in Hoe.
+  destruct (ready_entries_are_unstable _ _ _ H) as (R1 & R2 & _ & _ & R3 & R3' & R4 & R4' & R5 & _).
+  unfold ready_nonempty. rewrite R1, R2, R5.
+  assert (Hl1 : lr_committed_entries (rd_light rd) = ce_of oe) by (subst rd light; reflexivity).
+  assert (Hl2 : lr_messages (rd_light rd) = r_msgs (rn_raft n)) by (subst rd light; reflexivity).
+  rewrite Hl1, Hl2.
+  assert (Hss : rd_ss rd <> None <-> soft_state_of (rn_raft n) <> rn_prev_ss n) by (rewrite R4'; tauto).
+  assert (Hhs : rd_hs rd <> None <-> Raft.hard_state_of (rn_raft n) <> rn_prev_hs n) by (rewrite R3'; tauto).
+  rewrite Hss, Hhs.
+  destruct (next_entries_since_has _ _ _ _ Hoe) as (f & ub & Hf & Hub & Hhas & Hsome & Hnone).
+  unfold ready_snap in Hsnap.
+  destruct (u_snapshot (unst (r_log (rn_raft n)))) as [s|] eqn:Es.
+  - destruct Hsnap as (Hle & Hno & E). inversion E; subst snap csi rec_snap ms2. clear E.
+    rewrite Hhas in Hno. inversion Hno as [Hno'].
+    assert (Hce : ce_of oe = []) by (rewrite Hnone; [reflexivity|lia]).
+    rewrite Hce.
+    assert (Hsn : (exists s0, Some s = Some s0 /\ s_index s0 <> 0) <-> s_index s <> 0).
+    { split; [intros (s0 & A & B); inversion A; subst; exact B|intros A; eauto]. }
+    rewrite Hsn.
+    assert (Hnx : has_next_entries_since (r_log (rn_raft n)) (rn_commit_since_index n) = Ok true ->
+                  s_index s <> 0).
+    { intros C D. assert (rn_commit_since_index n = s_index s) by lia.
+      rewrite H0, Hhas in C. rewrite Hno' in C. discriminate. }
+    tauto.
+  - inversion Hsnap; subst snap csi rec_snap ms2. cbn [s_index snap_default].
+    assert (Hnx : has_next_entries_since (r_log (rn_raft n)) (rn_commit_since_index n) = Ok true <->
+                  ce_of oe <> []).
+    { rewrite Hhas. split.
+      - intros C. inversion C as [C']. destruct (Hsome ltac:(lia)) as (v & -> & Hv & _). exact Hv.
+      - intros C. destruct (N.max (rn_commit_since_index n + 1) f <? ub + 1) eqn:E; [reflexivity|].
+        rewrite Hnone in C by lia. cbn in C. congruence. }
+    rewrite Hnx.
+    assert (Hsn : ~ (exists s0 : snapshot, None = Some s0 /\ s_index s0 <> 0))
+      by (intros (s0 & A & _); discriminate).
+    tauto.
+Qed.
